@@ -43,7 +43,9 @@ type gCall struct {
 	Preflight bool
 	Volatile  bool
 	Binds     []gBind
-	Disabled  string `json:",omitempty"`
+	// wildcard binding `* = <Wild>` written after the explicit bindings ("" = none, "self", or a call id)
+	Wild     string `json:",omitempty"`
+	Disabled string `json:",omitempty"`
 }
 
 func (c *gCall) id() string {
@@ -270,6 +272,22 @@ func gGenProg(rng *rand.Rand, wide bool) *gProg {
 		}
 		p.Decls = append(p.Decls, gDecl{Stage: st})
 	}
+	// every generated stage has a twin with the same parameters but the opposite split flag
+	// (a different callee whose call sites look the same)
+	for i := 0; i < nst; i++ {
+		st := p.Decls[i].Stage
+		alt := &gStage{Name: st.Name + "_ALT", Lang: st.Lang, Src: st.Src + "_alt", Split: !st.Split,
+			Ins: append([]gParam{}, st.Ins...), Outs: append([]gParam{}, st.Outs...)}
+		p.Decls = append(p.Decls, gDecl{Stage: alt})
+	}
+	// stages for wildcard bindings: `* = MAKE_A` / `* = MAKE_B` / `* = self` feed CONSUME.wa / CONSUME.wb
+	for _, n := range []string{"MAKE_A", "MAKE_B"} {
+		p.Decls = append(p.Decls, gDecl{Stage: &gStage{Name: n, Lang: "comp", Src: "bin/" + strings.ToLower(n),
+			Ins: []gParam{{Type: "int", Name: "x"}}, Outs: []gParam{{Type: "int", Name: "wa"}, {Type: "int", Name: "wb"}}}})
+	}
+	p.Decls = append(p.Decls, gDecl{Stage: &gStage{Name: "CONSUME", Lang: "comp", Src: "bin/consume",
+		Ins:  []gParam{{Type: "int", Name: "x"}, {Type: "int", Name: "wa"}, {Type: "int", Name: "wb"}},
+		Outs: []gParam{{Type: "int", Name: "r"}}}})
 	// a stage without outputs, usable as preflight
 	pre := &gStage{Name: "PRE_CHECK", Lang: "comp", Src: "bin/pre", Ins: []gParam{{Type: "int", Name: "limit"}, {Type: "string", Name: "label"}}}
 	p.Decls = append(p.Decls, gDecl{Stage: pre})
@@ -298,7 +316,8 @@ func gGenProg(rng *rand.Rand, wide bool) *gProg {
 			// callee: any earlier declaration except PRE_CHECK
 			var cands []string
 			for _, d := range p.Decls {
-				if d.name() != "PRE_CHECK" && d.name() != "FLAGS" {
+				if n := d.name(); n != "PRE_CHECK" && n != "FLAGS" && n != "MAKE_A" && n != "MAKE_B" && n != "CONSUME" &&
+					!strings.HasSuffix(n, "_ALT") {
 					cands = append(cands, d.name())
 				}
 			}
@@ -345,6 +364,49 @@ func gGenProg(rng *rand.Rand, wide bool) *gProg {
 				}
 			}
 			pipe.Calls = append(pipe.Calls, c)
+			// a second call of the same stage, or of its twin, under an alias
+			if d.Stage != nil && !mapped && rng.Intn(3) == 0 {
+				c2 := gCall{Callee: callee}
+				if rng.Intn(2) == 0 {
+					c2.Callee = callee + "_ALT"
+				}
+				c2.Id = uniq(usedIds, callee+"_Y")
+				srcs2 := gSources(pipe, p, len(pipe.Calls))
+				for _, in := range d.ins() {
+					if r, ok := gPick(rng, srcs2, in.Type); ok && rng.Intn(2) == 0 {
+						c2.Binds = append(c2.Binds, gBind{in.Name, r})
+					} else {
+						c2.Binds = append(c2.Binds, gBind{in.Name, gLit(rng, p, in.Type, wide)})
+					}
+				}
+				pos := len(pipe.Calls)
+				if rng.Intn(2) == 0 {
+					pos-- // before the first one: the calls only refer to earlier calls' outputs, so re-pick literals
+					for k := range c2.Binds {
+						if !strings.HasPrefix(c2.Binds[k].Exp, "self.") {
+							c2.Binds[k].Exp = gLit(rng, p, d.ins()[k].Type, wide)
+						}
+					}
+				}
+				pipe.Calls = append(pipe.Calls[:pos:pos], append([]gCall{c2}, pipe.Calls[pos:]...)...)
+			}
+		}
+		if rng.Intn(2) == 0 {
+			// wildcard bindings
+			useSelf := rng.Intn(2) == 0
+			xa, xb := gLit(rng, p, "int", false), gLit(rng, p, "int", false)
+			if useSelf {
+				pipe.Ins = append(pipe.Ins, gParam{Type: "int", Name: uniq(used, "wa")}, gParam{Type: "int", Name: uniq(used, "wb")})
+				xa, xb = "self.wa", "self.wb"
+			}
+			wild := []string{"MAKE_A", "MAKE_B"}[rng.Intn(2)]
+			if useSelf && rng.Intn(2) == 0 {
+				wild = "self"
+			}
+			pipe.Calls = append(pipe.Calls,
+				gCall{Callee: "MAKE_A", Binds: []gBind{{"x", xa}}},
+				gCall{Callee: "MAKE_B", Binds: []gBind{{"x", xb}}},
+				gCall{Callee: "CONSUME", Binds: []gBind{{"x", gLit(rng, p, "int", false)}}, Wild: wild})
 		}
 		if rng.Intn(2) == 0 {
 			c := gCall{Callee: "PRE_CHECK", Preflight: rng.Intn(2) == 0, Local: rng.Intn(3) == 0,
@@ -461,6 +523,9 @@ func gRenderCall(sb *strings.Builder, st int, comments bool, c *gCall, ind strin
 			}
 			fmt.Fprintf(sb, "%s\t%s=%s,\n\n", ind, b.Id, b.Exp)
 		}
+	}
+	if c.Wild != "" {
+		fmt.Fprintf(sb, "%s    * = %s,\n", ind, c.Wild)
 	}
 	sb.WriteString(ind + ")")
 	if c.Disabled != "" {
